@@ -2,11 +2,13 @@
 """keep a confirmed seeded change under /verif/seeded/<Cxx>-<x>/ (patch.diff, demo.diff, notes.md, meta.json)"""
 import json, os, shutil, sys
 pid, x = sys.argv[1], sys.argv[2]
-src = '/tmp/seed-out/%s/%s' % (pid, x)
+out = sys.argv[3] if len(sys.argv) > 3 else '/tmp/seed-out'      # where the sub-agent wrote
+name = sys.argv[4] if len(sys.argv) > 4 else x                    # suffix under /verif/seeded
+src = '%s/%s/%s' % (out, pid, x)
 v = json.load(open(os.path.join(src, 'verify.json')))
 if not v['confirmed']:
     sys.exit('not confirmed: %s' % v)
-dst = '/verif/seeded/%s-%s' % (pid, x)
+dst = '/verif/seeded/%s-%s' % (pid, name)
 os.makedirs(dst, exist_ok=True)
 for f in ('patch.diff', 'demo.diff', 'notes.md'):
     shutil.copy(os.path.join(src, f), os.path.join(dst, f))
